@@ -162,9 +162,6 @@ func c10Signal(d *vCtx) error {
 			cmd.Env = e2eDropEnv(os.Environ(), "TMUX")
 			stdin, _ := cmd.StdinPipe()
 			stdoutR, _ := cmd.StdoutPipe()
-			if err := cmd.Start(); err != nil {
-				return err
-			}
 			// count the bytes the server process writes; the signal is sent once enough data has flowed
 			counted := &c10CountReader{r: stdoutR}
 			clientIn := &e2eChanReader{ch: make(chan []byte)}
@@ -180,6 +177,9 @@ func c10Signal(d *vCtx) error {
 			tr.Emit(map[string]any{"e": "reset", "run": rid, "upload": upload, "proto": 4, "binary": false, "overwrite": false,
 				"directory": false, "windows": false, "nfaults": 0, "stop": "V", "stopdel": false, "pause": false, "silence": false,
 				"timeout": 3, "fkind": "stop", "prehs": false, "files": []any{}}, nil)
+			if err := cmd.Start(); err != nil { // only now: the one-time upload is armed
+				return err
+			}
 			threshold := int64(300000 + r.Intn(2000000))
 			done := make(chan error, 1)
 			go func() { done <- cmd.Wait() }()
@@ -253,7 +253,7 @@ func c10Signal(d *vCtx) error {
 				"ms": 0, "since": since(vend), "told": false, "msg": "", "claims": 2}, nil)
 			tr.Emit(map[string]any{"e": "fs", "run": rid, "n": len(entries), "nsame": nsame, "allsame": allSame && len(entries) > 0,
 				"extra": 0, "touched": 0, "shown": true, "nshown": 2, "ntops": 2, "npresent": 0, "keptok": keptok || sigAt.IsZero(),
-				"verified": 1, "claimsame": allSame && len(entries) > 0, "mutapplied": false, "vmgrow": 0, "pdata": 0, "pkeep": 0, "dataafter": 0, "pausems": 0}, nil)
+				"verified": 1, "claimsame": allSame && len(entries) > 0, "mutapplied": false, "vmgrow": 0, "pdata": 0, "pkeep": 0, "dataafter": 0, "pausems": 0, "npauses": 0}, nil)
 			details = append(details, map[string]any{"case": map[string]any{"id": rid, "opts": map[string]any{"upload": upload},
 				"plan": map[string]any{"stop": map[string]any{"role": "V", "delete": false, "signal": sig.String(), "after_bytes": threshold}}, "process": true},
 				"entries": entries, "server_exit": cmd.ProcessState.String(), "terminal": e2eFirstLine(sink.String())})
